@@ -23,6 +23,7 @@ Fixpoint index_of_name (n : string) (fs : list field) (i : nat) : option nat :=
   end.
 
 Section Typed.
+  Variable cs : string -> option (list byte -> N).
   Variable M : bmodel.
 
   Section Body.
@@ -66,6 +67,7 @@ Section Typed.
                  end)
             | None => false
             end
+        | AMatch _ _ _, _ => false               (* no key field, or not a payload *)
         | a, _ => typed_elem a v
         end.
 
@@ -114,7 +116,9 @@ Section Typed.
         end
       else
         match f_attr f with
-        | ALen _ _ | ACheck _ _ => True          (* computed by the encoder *)
+        | ALen _ _ => exists a b, v = VInt a /\ v' = VInt b     (* computed by the encoder *)
+        | ACheck alg _ =>                                        (* computed when the algorithm is registered *)
+            (cs (unquote alg) = None -> v = v') /\ exists a b, v = VInt a /\ v' = VInt b
         | a => ueq_elem a v v'
         end.
 
